@@ -125,6 +125,19 @@ def r1(model: Model, rep: Report):
     ref = ev.attr(self_t, "reference_node", Frame(f, f.module, {}, L, 0))
     rtype = ev.attr(self_t, "relation_type", Frame(f, f.module, {}, L, 0))
     dur = sym([p for p in f.param_names if p != f.self_name][0])
+    # the link's two accessors may appear as the property or as the field it returns (depending on how deep the body was read): one spelling
+    unify = {}
+    for pname, t_prop in (("reference_node", ref), ("relation_type", rtype)):
+        pf = L.properties.get(pname)
+        if pf is not None:
+            try:
+                t_field = Evaluator(model, inline_methods=False).value_of(pf, self_cls=L)
+            except Unsupported:
+                t_field = None
+            if t_field is not None and t_field != t_prop and t_field[0] == "attr":
+                unify[t_field] = t_prop
+    if unify:
+        outs = [Outcome(subst(o.cond, unify), o.kind, subst(o.value, unify) if o.value is not None else None, o.node) for o in outs]
     n = equation_table(rep, ev, outs, ref, rtype, dur, "C01.R1", "RelationLink.get_start_time", f.loc)
     rep.analysed["C01.R1 cases"] = n
     # the reference / type properties return the stored fields
@@ -573,13 +586,24 @@ def r7(model: Model, rep: Report):
         lp = loop_of(p)
         if lp is None:
             raise AnalysisError(f"{construct}: no loop")
-        dom = node_iterator_domain(lp.term)
-        it = strip_identity_wrappers(lp.term)
-        ok_dom = dom == "ALL" and it[1][1] == ("attr", other, "_circuit_graph")
-        rep.check(ok_dom, "C01.R7", construct + "[domain]", f.loc, found=f"{show(lp.term)} -> {dom}", required="all nodes of the appended copy",
-                  what="not every node of the appended copy is processed", detail="domain")
+        # the hand-over loop is the one that adds to self (a helper that prepares the chain link may loop over the leaves first)
+        adders = [e for e in p.events if e.kind == "loop" and any(c[1][1] == s for bp in e.extra["paths"] for _, c in effect_calls(bp.events, "add"))]
+        if len(adders) == 1:
+            lp = adders[0]
+        from .common import devar
+        from ..listflow import as_single_comp
+        dom_term = lp.term
         elem = ("bound", "for", lp.node.lineno, show(lp.term))
         op = ("attr", elem, "operation")
+        lt = devar(as_single_comp(p, lp.term)) if lp.term is not None else None
+        if lt is not None and lt[0] == "comp" and len(lt[3]) == 1 and not lt[3][0][1] and lt[2][0] == "attr" and lt[2][2] == "operation" and lt[2][1][0] == "bound":
+            # ``for operation in [node.operation for node in <nodes>]``: the element already is the operation of a node of that domain
+            dom_term, op = lt[3][0][0], elem
+        dom = node_iterator_domain(dom_term)
+        it = strip_identity_wrappers(dom_term)
+        ok_dom = dom == "ALL" and it[1][1] == ("attr", other, "_circuit_graph")
+        rep.check(ok_dom, "C01.R7", construct + "[domain]", f.loc, found=f"{show(dom_term)} -> {dom}", required="all nodes of the appended copy",
+                  what="not every node of the appended copy is processed", detail="domain")
         no_rel = t_cmp("is", ("attr", ("attr", op, "relation_link"), "reference_node"), NONE)
         assigned = set()
         bad = []
@@ -627,6 +651,8 @@ def r7(model: Model, rep: Report):
             ok = lk[0] == "new" and lk[1] == "MultiRelationLink"
             d = dict(lk[2]) if ok else {}
             refs = d.get("_reference_nodes")
+            if refs is not None and refs[0] == "var":
+                refs = as_single_comp(p, refs)        # a list filled by one append loop over the leaves is that comprehension
             ok_refs = (refs is not None and refs[0] == "comp" and len(refs[3]) == 1 and not refs[3][0][1]
                        and strip_identity_wrappers(refs[3][0][0]) == leafs and refs[2][0] == "attr" and refs[2][2] == "operation" and refs[2][1][0] == "bound")
             grp = d.get("_relation_to_group", ("enum", "MultiRelationType", "LATEST"))
